@@ -152,6 +152,8 @@ TickStep(e) ==
       v1 == [v EXCEPT
                !.C04 = F(F(@, ~setok, "C04:expiry-set"), ~volok, "C04:expiry-volume"),
                !.C10 = F(@, e.lg # <<0, 0, 0, Len(e.exp)>>, "C10:expiry-records"),
+               \* what a finished step's statistics said stays what they say (per-step sums, C08, as well as C06)
+               !.C08 = F(@, ~e.nh /\ ~IsPrefix(seen, e.hist), "C08:statistics-of-a-finished-step-changed"),
                \* (e.nh: an earlier Market._set_time skipped steps; the series getters refuse the skipped times, the history is not read)
                !.C06 = F(F(F(F(@, e.clock # now, "C06:clock-step"),
                           ~e.nh /\ Len(e.hist) # now, "C06:history-length"),
